@@ -15,8 +15,11 @@ edits = {
   ("m.seed = uintptr(rand())", "m.seed = uintptr(0x6A09E667) // verif"),
  ],
  "src/internal/runtime/maps/table.go": [
-  ("it.entryOffset = rand()", "it.entryOffset = 0 // verif"),
-  ("it.dirOffset = rand()", "it.dirOffset = 0 // verif"),
+  # iteration start offsets stay pseudo-random (code samples maps by ranging over them, e.g. the
+  # eviction scan and the LRU sample) but come from a process-wide counter instead of the OS
+  ("it.entryOffset = rand()", "it.entryOffset = verifIterRand() // verif"),
+  ("it.dirOffset = rand()", "it.dirOffset = verifIterRand() // verif"),
+  ("func (it *Iter) Init(", "var verifIterCtr uint64\n\nfunc verifIterRand() uint64 {\n\tverifIterCtr += 0x9E3779B97F4A7C15\n\tx := verifIterCtr\n\tx = (x ^ (x >> 30)) * 0xBF58476D1CE4E5B9\n\tx = (x ^ (x >> 27)) * 0x94D049BB133111EB\n\treturn x ^ (x >> 31)\n}\n\nfunc (it *Iter) Init("),
  ],
  "src/runtime/alg.go": [
   ("hashkey[i] = uintptr(bootstrapRand())", "hashkey[i] = uintptr(0x51ED270B*uint64(i+1)) | 1 // verif"),
